@@ -165,19 +165,19 @@ func c07Check(c *Ctx, m map[string]interface{}, path string, pol int, choices []
 
 func c07Run(c *Ctx) {
 	mustBeDefault(c)
-	c.S.Rule = "cases = (Map, path): Maps are all map templates with <= N nodes over keys {a,b,k} (lists <= 3 members, maps <= 3 keys, empty containers, list-in-list for non-indexed paths) with unique leaves, plus a wide family (40-key map, 40-member list); paths are step sequences of length <= L over {a,b,k,z,*,a[0..2],b[0..2],k[0..2]} enumerated per Map by depth-first extension (a prefix denoting nothing is extended by one more step, then abandoned); each case is run under ascending and descending map-iteration order and, for wildcard paths, under every single deviation from the sorted order (E-choice bound 1; bound 2 in thorough on the smaller Maps). non-trivial = the reference says the path denotes at least one value."
+	c.S.Rule = "cases = (Map, path): Maps are all map templates with <= N nodes over keys {a,ab,k} (one key is a prefix of another) (lists <= 3 members, maps <= 3 keys, empty containers, list-in-list for non-indexed paths) with unique leaves, plus a wide family (40-key map, 40-member list); paths are step sequences of length <= L over {a,ab,k,z,*,a[0..2],ab[0..2],k[0..2]} enumerated per Map by depth-first extension (a prefix denoting nothing is extended by one more step, then abandoned); each case is run under ascending and descending map-iteration order and, for wildcard paths, under every single deviation from the sorted order (E-choice bound 1; bound 2 in thorough on the smaller Maps). non-trivial = the reference says the path denotes at least one value."
 	c.S.Assumptions = []string{"reference path semantics written from the documentation (harness/ref_path.go)", "list directly inside a list under a plain key: one-level and recursive readings both accepted"}
 	maxNodes, maxLen, echoiceNodes := 5, 3, 5
 	if c.Thorough {
 		maxNodes, maxLen, echoiceNodes = 6, 4, 5
 	}
-	g := newGen(GenP{Keys: []string{"a", "b", "k"}, MaxList: 3, MaxKeys: 3, EmptyList: true, EmptyMap: true, ListInList: true})
+	g := newGen(GenP{Keys: []string{"a", "ab", "k"}, MaxList: 3, MaxKeys: 3, EmptyList: true, EmptyMap: true, ListInList: true})
 	var alpha []string
-	for _, k := range []string{"a", "b", "k"} {
+	for _, k := range []string{"a", "ab", "k"} {
 		alpha = append(alpha, k)
 	}
 	alpha = append(alpha, "z", "*")
-	for _, k := range []string{"a", "b", "k"} {
+	for _, k := range []string{"a", "ab", "k"} {
 		for i := 0; i < 3; i++ {
 			alpha = append(alpha, fmt.Sprintf("%s[%d]", k, i))
 		}
